@@ -21,11 +21,6 @@ Example pin_dot_split : src_dot_split =
 Proof. reflexivity. Qed.
 Example pin_home : src_home = [94; 126; 40; 63; 80; 60; 116; 97; 105; 108; 62; 46; 42; 41].
 Proof. reflexivity. Qed.
-Example pin_dollar_template : src_dollar_template =
-  [36; 123; 123; 104; 101; 97; 100; 125; 125; 123; 125; 36; 123; 123; 116; 97; 105; 108; 125; 125].
-Proof. reflexivity. Qed.
-Example pin_home_template : src_home_template = [123; 125; 36; 116; 97; 105; 108].
-Proof. reflexivity. Qed.
 (** the range pattern's captures are hand-written too (find_range); its yes/no use is generated *)
 Example pin_brace_range : rx_brace_range_src =
   [92; 123; 40; 45; 63; 91; 48; 45; 57; 93; 43; 41; 92; 46; 92; 46; 40; 45; 63; 91; 48; 45; 57; 93; 43; 41; 40; 92; 46; 92;
